@@ -11,8 +11,8 @@ MANIFEST = {
                  "differential correspondence of outcome classes and projected values (extracted OCaml vs Go in isolated "
                  "worker processes, on the same hostile generators as the search) + hostile-input search over every anchored "
                  "entry point incl. the SPS -> PPS -> slice pipelines",
-    "level_text": "Theorems, for ALL byte lists with no hypothesis (three files: coq/c16/C16Theorems.v, C16TheoremsParse.v, "
-                  "C16TheoremsAux.v; every theorem closed under the global context): a value or an error, never Panic, never "
+    "level_text": "Theorems, for ALL byte lists with no hypothesis (four files: coq/c16/C16Theorems.v, C16TheoremsParse.v, "
+                  "C16TheoremsAux.v, C16TheoremsConfRec.v; every theorem closed under the global context): a value or an error, never Panic, never "
                   "OutOfFuel, iterations and sizes of built lists bounded linearly in the input, for (1) each length-field NAL-unit "
                   "walker of avc and hevc as repaired (<= |bs|/4 iterations and appends); (2) the EBSP bit reader (Read, "
                   "ReadExpGolomb, sticky error); (3) avc.ParseSPSNALUnit (every reader state; all allocations constant: <= 255 POC "
@@ -26,10 +26,15 @@ MANIFEST = {
                   "ExtractCEA608sei, MDCV, CLL (index and slice expressions modelled as PARTIAL operations and proved in range), "
                   "avc.ParseSEINalu / hevc.ParseSEINalu for every SPS-derived context; (5) aac.DecodeADTSHeader (<= 188 scan "
                   "iterations) and DecodeAudioSpecificConfig; (6) the Annex B scanners and byte-stream helpers of avc/hevc (models "
-                  "of C14; the word-scanner and ConvertByteStreamToNaluSample under bytes < 256). Every modelled entry point is tied to "
+                  "of C14; the word-scanner and ConvertByteStreamToNaluSample under bytes < 256); (7) avc.DecodeAVCDecConfRec, "
+                  "hevc.DecodeHEVCDecConfRec, av1.DecodeAV1CodecConfRec (own models: partial index/slice, bits.FixedSliceReader with its "
+                  "accumulated error, count loops on fuel): NAL units and their bytes <= |data|, iterations linear, HEVC arrays <= 255 "
+                  "(arrays <= |data| refuted: 255 empty arrays are returned with the read error of a 23-byte record). Every modelled entry point is tied to "
                   "/repo on every run: outcome class and projected values on the hostile generators must equal the extracted model's. "
-                  "Explored only (search, no theorem): the HEVC SPS/PPS/slice-header parsers (no model in C16; hostile field-level "
-                  "pipelines), String/Payload of the remaining messages, cmd/mp4ff-nallister / pslister on hostile files.",
+                  "Explored only (search, no theorem): the HEVC SPS/PPS/slice-header parsers (no model in C16): field-level syntax writers "
+                  "for AVC and HEVC SPS/PPS/slice drive the pipelines SPS -> PPS -> slice, SPS -> SEI and config record -> parameter sets "
+                  "-> slice with 0/1/2 hostile fields per stage (each ue/se/u field at 0, 1, max-1, max, max+1, 255, 256, 2^16-1, 2^32-1 ...), "
+                  "all slice types, tool flags on; String/Payload of the remaining messages; cmd/mp4ff-nallister / pslister on hostile files.",
     "level_note": "Trusted: Coq kernel, extraction, OCaml/Go glue, worker classification (wall-clock budget, runtime/metrics "
                   "allocation counter, watchdog + ulimit -v). Models of other properties are imported read-only (C13 reader, C14 "
                   "scanners, C15 AVC parsers, C17 SEI, C18 AAC); where they are total but Go indexes, C16 wraps them with partial "
@@ -64,7 +69,8 @@ def run(ctx):
         "fix: commits; bit reader model imported from coq/c13/C13Model.v; coq/c16/C16ParseModel.v (AVC SPS/PPS/slice-header "
         "parsers = coq/c15/C15Model.v with data-derived loop fuel, avc.GetSliceTypeFromNALU), C16AuxModel.v (partial-operation "
         "wrappers of the C17 SEI decoders, ExtractSEIData with the ReadBytes loop, ADTS scan with counters), C16SeiNaluModel.v "
-        "(avc/hevc ParseSEINalu), models of C14 (Annex B) and C18 (ADTS/ASC) imported read-only",
+        "(avc/hevc ParseSEINalu), C16ConfRecModel.v (AVC/HEVC/AV1 configuration records), models of C14 (Annex B) and C18 (ADTS/ASC) "
+        "imported read-only",
         "outcome classification by the harness parent: ok|err from the call, panic by recover, hang by wall clock "
         "(2 s, confirmed with 6 s), overalloc by allocation counter > 512*len+1MiB or runtime out-of-memory abort",
     ]
